@@ -5,11 +5,55 @@ import os
 
 VERIF = os.path.dirname(os.path.dirname(os.path.abspath(__file__)))
 
+TRUST = "Trusted: the strict observer (public accessors only), the reference model written from the property text, CPython; bounded pools and history lengths (see DESIGN.md section 3)."
+
 CHECKS = {
+    "C03": dict(
+        technique="deterministic simulation: seeded namespace-operation histories, per-step history invariants (a)(b)(c) with re-resolution of every name ever handed out",
+        text="Seeded exploration of interleavings of add_namespace / set_default_namespace / valid_qualified_name / record creation / update / add_bundle on documents and bundles (created by bundle() or free-standing and attached later), with clashing prefixes, equal URIs under different prefixes, generated-looking and reserved prefixes, URIs that are prefixes of each other. After every step and for every live container: resolved names keep their URI, the observable prefix table and default are monotone, add_namespace's returned prefix is bound to the requested URI, prov/xsd/xsi never move, and every name the container ever handed out re-resolves to the same URI. Evidence over explored histories, not proof.",
+        note=TRUST + " Usage discipline from the quantifier (a scope's default namespace is never re-bound) is enforced by the executor.",
+        ref="DESIGN.md section 4, C03",
+    ),
+    "C04": dict(
+        technique="deterministic simulation: seeded histories + single-edit/content-preserving partners, equivalence laws vs a reference relation, same seeds under several PYTHONHASHSEED classes",
+        text="Per run a base document is built by a seeded history, then 5-9 partners (permuted / re-prefixed / duplicated / rebuilt via the records constructor / round-tripped, or rebuilt with exactly one of 13 edit kinds); ~45 ordered document comparisons and record comparisons are judged: reflexive, symmetric, != agrees, transitive over all triples, == iff the reference content equivalence, equal records have equal hashes. Each run seed is executed under 4 (quick) / 32 (thorough) hash seeds and the verdict logs must be identical, so hash-order dependent verdicts are caught. Evidence, not proof.",
+        note=TRUST + " Reference equality uses Python numeric and datetime equality for values, as the property allows.",
+        ref="DESIGN.md section 4, C04",
+    ),
+    "C05": dict(
+        technique="deterministic simulation: seeded construction/attribute histories, per-step normal-form invariant + transition model of add_attributes/set_time/constructors",
+        text="Seeded histories over all 18 record kinds created through new_record, typed factories and element convenience methods, with formal arguments as record objects, QualifiedNames, prefix:local, bare and full-URI strings, times as datetime or ISO string, followed by add_attributes (dict and pair form), set_time, add_asserted_type, re-adding the same and adding a different formal value, Literal(v, xsd:T) versus native values. After every step every live record is checked for the normal form, and each operation's outcome (no-op / ProvException / union; stored Python value) is compared with a transition model written from the property text. Evidence, not proof.",
+        note=TRUST + " Operations whose names are given as strings that may be unresolvable are checked by the invariant only (counted as transition_unmodelled).",
+        ref="DESIGN.md section 4, C05",
+    ),
+    "C08": dict(
+        technique="deterministic simulation: seeded identifier-reuse histories, refinement of unified() against a reference merge, idempotence, source non-interference",
+        text="Seeded histories with identifier pools of 2-3 names (same identifier on several records of one kind with overlapping/conflicting attributes, on different kinds, inside and outside bundles, through different prefixes); every unified() call on a document or bundle is compared with a reference merge (conflict => ProvException; else one record per identifier and kind carrying the union, anonymous records untouched, first-occurrence order, same bundle identifiers), must return a new object, leave the source's content and namespaces unchanged, and be idempotent. Evidence, not proof.",
+        note=TRUST,
+        ref="DESIGN.md section 4, C08",
+    ),
+    "C09": dict(
+        technique="deterministic simulation: seeded sequences of update/add_bundle/bundle()/flattened over 2-3 documents with clashing namespace environments, multiset conservation vs reference, refusals leave state unchanged",
+        text="Seeded sequences of flattened, update, add_bundle (bundle / bundle-free document / document with bundles / without identifier / duplicate identifier / non-bundle) and bundle() on 2-3 documents with clashing prefixes, different defaults at both levels, shared bundle identifiers; each call is compared with reference multiset operations on strict URI-level snapshots, the other argument must stay unchanged, and every refusal must be a ProvException leaving the document exactly as before. Evidence, not proof.",
+        note=TRUST + " Re-attaching an already attached bundle, adding a document to itself and d.update(d) are outside the quantifier and skipped by the executor.",
+        ref="DESIGN.md section 4, C09",
+    ),
+    "C12": dict(
+        technique="deterministic simulation: seeded histories of deriving operations followed by mutations on either side, write-set non-interference invariant over all live objects",
+        text="Seeded histories mixing copy, add_record, document-from-records, update, add_bundle, unified, flattened and JSON/XML deserialisation with mutators (attributes, records, namespaces, defaults, bundles) applied to sources and results alike; every operation declares a write set and after each step every other live document, bundle and record must have an identical strict snapshot (content, registered namespaces, default namespace, bundle identifiers). Evidence, not proof.",
+        note=TRUST + " A record's write set includes the bundle it belongs to (attribute names are resolved there).",
+        ref="DESIGN.md section 4, C12",
+    ),
+    "C13": dict(
+        technique="deterministic simulation: seeded histories with exporter calls in any order, empty-write-set invariant, second-call and twin-world text equality",
+        text="Seeded histories in which serialisation to json/xml(+-force_types)/rdf/provn, get_provn, graph and DOT conversion (all option combinations), ==, hashing, unified and flattened are called at random points and repeatedly; after each such call every live object must be unchanged (content with record order, namespaces, defaults), the same call repeated must give identical text (isomorphic graphs for RDF), and a twin world built by the same operations in the same process must export byte-identical text. Evidence, not proof.",
+        note=TRUST + " RDF output that rdflib itself cannot parse back is not compared (counted).",
+        ref="DESIGN.md section 4, C13",
+    ),
     "C18": dict(
         technique="deterministic simulation: seeded record-insertion histories, per-step index-coherence invariant",
         text="Seeded exploration of histories over every record-adding path (new_record, factories, convenience methods, add_record, update, add_bundle, constructor records, JSON/XML deserialisation, unified, flattened); after every step every live container is checked: get_record in 5 spellings == scan of get_records by identifier URI (same objects, same order), get_records(cls) == isinstance filter for 20 classes, records is an independent copy. A pass is evidence over the explored histories, not proof.",
-        note="Trusted: the strict observer (public accessors only), CPython, the pools/history bounds (<=3 documents x <=3 bundles, <=45 steps).",
+        note=TRUST,
         ref="DESIGN.md section 4, C18",
     ),
 }
@@ -22,7 +66,7 @@ NOT_APPLICABLE = [
     ("C15", "DOT validity over documents x display options is a pure function judged by Graphviz; not a simulation target"),
 ]
 
-PENDING = []
+ALL_CLAIMED = ["C01", "C02", "C03", "C04", "C05", "C07", "C08", "C09", "C12", "C13", "C16", "C17", "C18"]
 
 
 def main():
@@ -42,8 +86,9 @@ def main():
             "technique": c["technique"],
         })
     na = [{"property_id": p, "reason": r} for p, r in NOT_APPLICABLE]
-    for p, r in PENDING:
-        na.append({"property_id": p, "reason": r})
+    for p in ALL_CLAIMED:
+        if p not in CHECKS:
+            na.append({"property_id": p, "reason": "not claimed yet: the check for this property is still under construction (DESIGN.md section 4 describes it)"})
     m = {
         "version": 1,
         "setup_cmd": "cd /verif && /venv/bin/python -m provsim.selfcheck",
